@@ -133,7 +133,7 @@ def run(ctx):
     samples = [{"hist": r["hist"], "hex": r["hex"][:60], "steps": r["steps"][:4], "verdict": verdicts[r["id"]]} for r in records[:: max(1, len(records) // 4)][:4]]
     return finish(ctx, level="model_checking", failures=failures, evaluations=len(records),
                   distinct_nontrivial=len(nontriv),
-                  rule=f"TLC enumerates every history of length {maxlen} over 12 queries + reparse + 2 fresh-process switches "
+                  rule=f"TLC enumerates every history of length {maxlen} over {len(QUERIES)} queries + reparse + 2 fresh-process switches "
                        "(spec/Queries.tla); each is replayed on pool pickles; plus long shuffled histories per pool pickle; "
                        "non-trivial = a query is repeated or asked on a re-parsed copy / in another process; distinct by (bytes, history)",
                   samples=samples, traces=len(records), assumptions=ASSUME,
